@@ -350,6 +350,16 @@ def conformance(part: Part) -> None:
                 raise InternalError(f"SimFS disagrees with the real file system on {lock} {seq}")
 
 
+def replay_case(raw: dict, part: Part) -> None:
+    backends.setup_determinism()
+    simfs.install()
+    run = Run(tuple(raw["task"]))
+    ex = run.execute(Chooser(list(raw["schedule"])))
+    print("history:", ex["hist"])
+    for clause, detail in run.check(ex):
+        part.violation(clause, raw)
+
+
 def run(tier: str, replay: str | None = None) -> int:
     backends.setup_determinism()
     ctx = Ctx(PID, tier, "model_checking")
